@@ -1302,7 +1302,7 @@ func c04Exec(t *testing.T, r *kit.Run) func(wProg) kit.Outcome {
 			}
 		}
 		sort.Strings(o.Classes)
-		if fail != "" {
+		if fail != "" && res.Viol == nil {
 			o.Skip = true
 			fmt.Println("C04 bubble failure (not judged here):", firstLine(fail))
 			return o
